@@ -65,6 +65,10 @@ CHECKS = {
    text="For guarded programs the real get_moment_given_termination sequence is compared at every n <= N with E[M 1{stopped by n}]/P(stopped by n) of the reference semantics by one cross-multiplied z3 query over all parameter values; the negated-guard indicator polynomial is checked on the types; the value reported after the loop is compared with an independently derived limit of the verified sequence (exponential-polynomial shape, |b/B| < 1 proved by the solver).",
    ref="DESIGN.md 3/C09", tech="z3 equivalence of the reported conditional-moment sequence with the k-step reference semantics conditioned on termination; independent limit derivation",
    note="Trusted: vlib/sem.py, z3. 'Stopped by n' is read operationally (one of the first n guard evaluations was false). Bounded: n <= 4/6; the limit leg only for numeric bases; divergence reporting only where the shape forces it; limits sympy cannot compute are refusals."),
+ "C10": dict(cat="translation_validation",
+   text="For programs with symbolic parameters both sensitivity methods of the real code (DiffRecBuilder recurrences solved for delta*M, and differentiation of the closed form) are compared at every n <= N with the parameter derivative of the k-step reference expectation (differentiated symbolically in the harness's own polynomial arithmetic) by one z3 query over all parameter values; get_dependent_variables is checked to contain every variable whose expectation depends on the parameter.",
+   ref="DESIGN.md 3/C10", tech="z3 equivalence of the reported sensitivity with d/dp of the reference semantics' expectation (both methods)",
+   note="Trusted: vlib/sem.py, vlib/qpoly.py:diff, z3. Bounded: n <= 3/5, <= 2 parameters and <= 3 goals per program; programs whose branch conditions depend on the parameter are outside."),
 }
 NA_REASON = "check not built yet in this session (see DESIGN.md section 3 for the planned solver-based check)"
 
